@@ -134,6 +134,7 @@ class Interp:
         self.loop_counter = []
         self.interpret_all = interpret_all
         self.noop_attr_calls = {"logger", "logging", "warnings"}
+        self.set_order_nondet = False  # True: iterating a native set forks over every order (C14 hash-seed independence)
         self.heap_writes = []  # (SObj, field) of every attribute store on a symbolic heap object
         self.called = set()  # (rel, qualname) of every repo function interpreted on this path
         self.native_called = set()
@@ -755,6 +756,15 @@ class Interp:
                     raise Undecided(f"iteration over {v!r}")
                 return self.iterate(self.call(self._bind_class_attr(raw, v, cls)))
             raise Undecided(f"iteration over {v!r}")
+        if self.set_order_nondet and isinstance(v, (set, frozenset)) and len(v) >= 2:
+            # Python fixes no iteration order for a set (hash randomisation): every order is a path
+            items = list(v)
+            if len(items) > 4:
+                raise Undecided("iteration over a set of more than 4 elements under the arbitrary-order model")
+            out = []
+            while len(items) > 1:
+                out.append(items.pop(self.ctx.choose(len(items), "set iteration order")))
+            return out + items
         try:
             return list(v)
         except Exception as e:
